@@ -259,6 +259,38 @@ def job_pairs():
     return n, viol
 
 
+def job_reuse():
+    """One ScriptJob compiles and runs text A, then compiles and runs text B: B behaves as on a fresh job."""
+    w = world.World(world.POP_MIXED)
+    texts = JOBS + ['print 1 on "a"', 'define f with p begin print p end f 5', 'hue 5 zz']
+    alone = []
+    for t in texts:
+        w.reset()
+        job = ScriptJob.from_string(t)
+        r = w.run_program(job.program, cap=3000, machine=job._machine) if job.program is not None else None
+        alone.append(('rejected', job.compile_errors) if r is None else ('ran', r.trace, (r.abort or (None,))[1:]))
+    n = 0
+    viol = []
+    for i, j in itertools.product(range(len(texts)), repeat=2):
+        n += 1
+        job = ScriptJob()
+        outs = []
+        for k in (i, j):
+            for d in w.devices:
+                d.reset_state()
+            w.net.log.clear()
+            prog = job.load_string(texts[k])
+            if prog is None:
+                outs.append(('rejected', job.compile_errors))
+            else:
+                r = w.run_program(prog, cap=3000, machine=job._machine)
+                outs.append(('ran', r.trace, (r.abort or (None,))[1:]))
+        if outs[1] != alone[j]:
+            viol.append(('reused-job-runs-previous-text-or-state', (texts[i], texts[j]),
+                         'second text on a reused ScriptJob: %r, on a fresh one: %r' % (str(outs[1])[:200], str(alone[j])[:200])))
+    return n, viol
+
+
 def run(tier, seed):
     rep = Report()
     world.World(world.POP_MIXED)          # injection bindings for the parent process
@@ -290,6 +322,9 @@ def run(tier, seed):
         rep.violation(kind, '%s (%d programs), e.g. `%s`: %s' % (kind, cnt, text, detail),
                       {'script': text, 'detail': detail, 'programs': cnt})
     npairs, jviol = job_pairs()
+    nreuse, rviol = job_reuse()
+    npairs += nreuse
+    jviol += rviol
     for kind, pair, detail in jviol:
         rep.violation(kind, '%s: first %r then %r: %s' % (kind, pair[0], pair[1], detail),
                       {'first_job': pair[0], 'second_job': pair[1], 'detail': detail})
